@@ -58,7 +58,9 @@ AbsListed(s) == {i \in 1..Len(s) : s[i].k \in Listed}
 VARIABLES file, i, idx, map
 vars == <<file, i, idx, map>>
 NoneIx == 0
-Init == /\ file \in {s \in UNION {[1..n -> Recs] : n \in 1..(MaxLen + 1)} : Valid(s)}
+(* every conformant file starts with a file header: only the MaxLen records after it are enumerated *)
+Candidates == {<<Rec("FH", 0)>> \o t : t \in UNION {[1..n -> Recs] : n \in 0..MaxLen}}
+Init == /\ file \in {s \in Candidates : Valid(s)}
         /\ i = 1 /\ idx = <<>> /\ map = [t \in {0, 1} |-> NoneIx]
 
 Step == /\ i <= Len(file)
